@@ -309,8 +309,9 @@ class scrypt(  # type: ignore[misc]
         salt = super()._generate_salt()
         if self.ident == IDENT_7:
             # this format doesn't support non-ascii salts.
-            # as workaround, we take raw bytes, encoded to base64
-            salt = b64s_encode(salt)
+            # as workaround, we take raw bytes, encoded to hash64
+            # (the only characters crypt() accepts in a $7$ salt)
+            salt = h64.encode_bytes(salt)
         return salt
 
     # ===================================================================
